@@ -55,7 +55,13 @@ json.dump(man, open(os.path.join(VERIF, 'MANIFEST.json'), 'w'), indent=1)
 kf = {'findings': [], 'fixed': []}
 for f in sorted(glob.glob(os.path.join(VERIF, 'known_findings.d', '*.json'))):
     d = json.load(open(f))
-    kf['findings'] += d.get('findings', [])
-    kf['fixed'] += d.get('fixed', [])
+    for e in d.get('findings', []):
+        e = dict(e)
+        e['line'] = 'KNOWN-FINDING: property=%s %s %s' % (e['property'], e.get('class', ''), e.get('what', ''))
+        kf['findings'].append(e)
+    for e in d.get('fixed', []):
+        e = dict(e)
+        e['line'] = 'fixed: property=%s %s %s' % (e['property'], e.get('commit', ''), e.get('what', ''))
+        kf['fixed'].append(e)
 json.dump(kf, open(os.path.join(VERIF, 'known_findings.json'), 'w'), indent=1)
 print('claimed:', [c['property_id'] for c in checks])
